@@ -125,7 +125,7 @@ def run_case(case):
 
 def features(case, involved):
     """root-cause oriented tags, restricted to the fields involved in the divergence"""
-    d = case["decl"]
+    d = dspec.resolve_naming(case["decl"])
     opts = d.get("options") or {}
     keys = [p[0] for p in case["input"]["v"] if isinstance(p[0], str)]
     by_any = {}
@@ -233,7 +233,7 @@ def judge(case):
 
 
 def nontrivial(case):
-    d = case["decl"]
+    d = dspec.resolve_naming(case["decl"])
     keys = [p[0] for p in case["input"]["v"]]
     opts = d.get("options") or {}
     primary = {fd["name"] for fd in dspec.all_fields(d)}
@@ -259,7 +259,7 @@ def nontrivial(case):
 
 
 def case_strategy():
-    decls = dspec.decl_specs(options=dspec.CLASS_OPTIONS, inherit=True)
+    decls = dspec.decl_specs(options=dspec.CLASS_AND_NAMING_OPTIONS, inherit=True)
     return decls.flatmap(lambda d: st.fixed_dictionaries({"decl": st.just(d), "input": dspec.inputs_for(d)}))
 
 
